@@ -3,6 +3,7 @@ package props
 import (
 	"encoding/json"
 	"fmt"
+	"github.com/cosmos/cosmos-sdk/codec"
 	"sort"
 	"strings"
 	"time"
@@ -62,6 +63,7 @@ type c18State struct {
 	reported map[string]bool
 	nSent    int
 	pending  []func() bool // forced follow-up steps (block-then-send scenarios)
+	pgTick   int
 }
 
 func (s *c18State) fail(sig, f string, a ...interface{}) {
@@ -293,6 +295,15 @@ func (s *c18State) check(after string) bool {
 	}
 	if len(s.probes) > 24 {
 		s.probes = s.probes[len(s.probes)-24:]
+	}
+	// a client paging through an inbox sees what the one-shot listing shows (paging.go), every 3rd check
+	s.pgTick++
+	if s.pgTick%3 == 0 {
+		addr := s.universe[(s.pgTick/3)%len(s.universe)]
+		checkPaging(rc, c, []listQuery{
+			{Path: nfQByAddr, Req: func() codec.ProtoMarshaler { return &ntypes.QueryAllNotificationsByAddress{To: addr} }, Resp: &ntypes.QueryAllNotificationsByAddressResponse{}},
+			{Path: nfQAll, Req: func() codec.ProtoMarshaler { return &ntypes.QueryAllNotifications{} }, Resp: &ntypes.QueryAllNotificationsResponse{}},
+		}, s.pgTick/3)
 	}
 	return true
 }
